@@ -212,8 +212,11 @@ class World:
                 size = len(write_io.buf)
                 world.sched.point(f"write:{write_io.path[-20:]}")
                 world.event("write_begin", path=write_io.path, size=size, root=self.root, nth=nth)
-                if world.write_policy is not None and world.write_policy(r, write_io.path, nth) == "fail":
+                verdict = world.write_policy(r, write_io.path, nth) if world.write_policy is not None else None
+                if verdict in ("fail", "fail-empty"):
                     world.event("write_fail", path=write_io.path, nth=nth)
+                    if verdict == "fail-empty":
+                        raise InjectedFailure()      # an exception whose str() is empty (like a bare TimeoutError())
                     raise InjectedFailure(f"injected failure of write #{nth} of rank {r} ({write_io.path})")
                 await super().write(write_io)
                 world.sched.point(f"written:{write_io.path[-20:]}")
